@@ -270,3 +270,26 @@ Theorem C18_plugin_once_refuted_old_die :
   exists ops, ~ NoDup (p_done (prun_ops_with false ops pinit)).
 Proof. exact C18.PProofs.plugin_once_refuted_old_die. Qed.
 Print Assumptions C18_plugin_once_refuted_old_die.
+
+(* ===== "fires at least once" at plugin level -- the part the invariant carries.
+   Loaded: every listed request has a schedule entry under its id (C18_plugin_listed_scheduled), which is a closure of
+   the live instance (C18_plugin_live); run() of src/schedule.py executes every due entry (C18_due_executed,
+   C18_run_drains); that closure deletes the request from the live dict and it is recorded in p_done (C18_plugin_done_gone).
+   Unloaded: nothing of the plugin is scheduled and the pickle is exactly the list (C18_plugin_unloaded_pickled).
+   NOT proved (checked by the direct oracle on every generated history): that a request stays listed from its acceptance
+   until it fires or is removed, step by step through the loop of _restoreEvents, and the drain of PModel's own loop. ===== *)
+Theorem C18_plugin_listed_scheduled :
+  forall ops k, let s := prun_ops ops pinit in
+  p_loaded s = true -> In k (map fst (p_dict s)) -> In k (map s_name (p_sched s)).
+Proof. exact C18.PProofs.plugin_listed_scheduled. Qed.
+Print Assumptions C18_plugin_listed_scheduled.
+
+Theorem C18_plugin_unloaded_pickled :
+  forall ops, let s := prun_ops ops pinit in p_loaded s = false -> p_sched s = [] /\ p_pickle s = p_dict s.
+Proof. exact C18.PProofs.plugin_unloaded_pickled. Qed.
+Print Assumptions C18_plugin_unloaded_pickled.
+
+Theorem C18_plugin_ids_bounded :
+  forall ops i, let s := prun_ops ops pinit in In (Auto i) (map fst (p_dict s)) -> (i < p_counter s)%N.
+Proof. exact C18.PProofs.plugin_ids_bounded. Qed.
+Print Assumptions C18_plugin_ids_bounded.
